@@ -110,6 +110,9 @@ func c13Run(kind string, p, t *ref.T, form int, tTracked bool) core.Verdict {
 }
 
 func checkC13(c *core.Ctx) {
+	defer sweepC13(c)
+	defer soakC13(c)
+	defer gridC12C13(c, true)
 	if c.Shard == 0 && c.Only == "" {
 		if f := refSelftest(); f > 0 {
 			c.Broken("reference model selftest failed (%d)", f)
@@ -331,6 +334,9 @@ func c15Run(act ref.Op, x *ref.T, form int, down int) core.Verdict {
 }
 
 func checkC15(c *core.Ctx) {
+	defer sweepC15(c)
+	defer soakC15(c)
+	defer gridC15(c)
 	if c.Shard == 0 && c.Only == "" {
 		if f := refSelftest(); f > 0 {
 			c.Broken("reference model selftest failed (%d)", f)
